@@ -26,7 +26,7 @@ def OP2(x, y): return "(((%s) & 0xfffff) * 3 + ((%s) & 0xfffff))" % (x, y)
 def rng(f="first", l="last", n="vf_n"):
     """requires: [f,l) is a fresh array of n ints"""
     g = "vf_k <= vf_n && vf_j <= vf_n && " if n == "vf_n" else ""
-    return g + "%s <= %s && FRESH(%s, %s * %s) && %s == %s + %s" % (n, NMAX, f, n, I, l, f, n)
+    return g + "%s <= %s && FRESH(%s, %s * %s) && __CPROVER_pointer_equals(%s, %s + %s)" % (n, NMAX, f, n, I, l, f, n)
 
 
 def buf(p, n="vf_n"):
@@ -575,34 +575,44 @@ fn("etl::lexicographical_compare<int *, int *, etl::less<>>", "etl_lexcmp_pred",
      DEC("OFF(l1) - OFF(f1)")]])
 
 
+# ---------------------------------------------------------------------------------------------------------------------
+# algorithms that ASSIGN WHOLE ITERATORS inside their loop (smallest = first; first = ++it): instantiated with vf::gix<int, 0> {long i;}
+# whose base pointer is the harness global vf_gb0 (returned by the ghost hook vf::g_base0()): assigning the iterator copies only the
+# index.  (With idx<int> the loop would have to assign -- hence havoc -- smallest.base; with raw pointers min_element did not finish.)
+G = "vf_gb0"
+
+
+def grng(f="first", l="last"):
+    return "vf_k <= vf_n && vf_j <= vf_n && vf_n <= %s && FRESH(%s, vf_n * %s) && %s.i == 0 && %s.i == (long)vf_n" % (NMAX, G, I, f, l)
+
+
+GK_B = "(vf_k < vf_n && (long)vf_k < first.i)"
 # min_element / max_element: the FIRST smallest / largest element w.r.t. comp (less: lt(a,b) = a < b; greater: a > b); last if empty
-def extremum(name_outer, name_inner, alias, var, lt, is_min, sig_outer=None):
+def extremum(name_outer, name_inner, alias, var, lt, is_min):
     # min: comp(*first, *smallest) replaces;  max: comp(*largest, *first) replaces
     notbetter = (lambda e, m: "!%s" % lt(e, m)) if is_min else (lambda e, m: "!%s" % lt(m, e))     # e does not beat m
     worse = (lambda e, m: lt(m, e)) if is_min else (lambda e, m: lt(e, m))                          # m beats e strictly
-    cl = [R(rng()),
-          E("vf_n == 0 ==> RET == OLD(last)"),
-          E("vf_n > 0 ==> (%s && RET != OLD(last))" % inr("RET", OF)),
-          E("%s ==> %s" % (K, notbetter("OLD(first)[vf_k]", "*RET"))),
-          E("(%s && %s) ==> %s" % (K, before("vf_k", "RET", OF), worse("OLD(first)[vf_k]", "*RET"))),
+    cl = [R(grng()),
+          E("0 <= RET.i && (vf_n == 0 ? RET.i == 0 : RET.i < (long)vf_n)"),
+          E("%s ==> %s" % (K, notbetter(G + "[vf_k]", G + "[RET.i]"))),
+          E("(%s && (long)vf_k < RET.i) ==> %s" % (K, worse(G + "[vf_k]", G + "[RET.i]"))),
           A()]
-    loop = [[A("first, %s" % var), INV(pin("first", "%s + %s" % (BOFF, I), "OFF(last)")),
-             INV("SAME(%s, last) && (OFF(last) - OFF(%s)) %% %s == 0 && %s <= OFF(%s) && OFF(%s) < OFF(first)" % (var, var, I, BOFF, var, var)),
-             INV("(%s && %s + vf_k < first) ==> %s" % (K, BASE, notbetter("%s[vf_k]" % BASE, "*" + var))),
-             INV("(%s && %s + vf_k < %s) ==> %s" % (K, BASE, var, worse("%s[vf_k]" % BASE, "*" + var))),
-             DECR]]
+    loop = [[A("first.i, %s.i" % var), INV("1 <= first.i && first.i <= last.i && last.i == (long)vf_n && 0 <= %s.i && %s.i < first.i" % (var, var)),
+             INV("%s ==> %s" % (GK_B, notbetter(G + "[vf_k]", G + "[%s.i]" % var))),
+             INV("(%s && (long)vf_k < %s.i) ==> %s" % (K, var, worse(G + "[vf_k]", G + "[%s.i]" % var))),
+             XDEC]]
     if name_inner:
         fn(name_outer, alias, cl)
         fn(name_inner, alias + "_pred", [], loop)
     else:
-        fn(name_outer, alias, cl, loop, sig=sig_outer)
+        fn(name_outer, alias, cl, loop)
 
 
 LT = lambda a, b: "(%s < %s)" % (a, b)
 GT = lambda a, b: "(%s > %s)" % (a, b)
-extremum("etl::min_element<int *>", "etl::min_element<int *, etl::less<>>", "etl_min_element", "smallest", LT, True)
-extremum("etl::max_element<int *>", "etl::max_element<int *, etl::less<>>", "etl_max_element", "largest", LT, False)
-extremum("etl::max_element<int *, etl::greater<>>", None, "etl_max_element_gt", "largest", GT, False)
+extremum("etl::min_element<vf::gix<int, 0>>", "etl::min_element<vf::gix<int, 0>, etl::less<>>", "etl_min_element", "smallest", LT, True)
+extremum("etl::max_element<vf::gix<int, 0>>", "etl::max_element<vf::gix<int, 0>, etl::less<>>", "etl_max_element", "largest", LT, False)
+extremum("etl::max_element<vf::gix<int, 0>, etl::greater<>>", None, "etl_max_element_gt", "largest", GT, False)
 
 
 # is_sorted_until / is_sorted: first position i with comp(a[i], a[i-1]), or last; adjacent pairs before it are in order
@@ -662,8 +672,53 @@ fn("etl::min<int>", "etl_min", [R("FRESH(a, sizeof(int)) && FRESH(b, sizeof(int)
 fn("etl::max<int>", "etl_max", [R("FRESH(a, sizeof(int)) && FRESH(b, sizeof(int))"), E("RET == (*a < *b ? b : a)"), A()])
 fn("etl::minmax<int>", "etl_minmax", [R("FRESH(a, sizeof(int)) && FRESH(b, sizeof(int))"),
    E("RET.first == (*b < *a ? b : a) && RET.second == (*b < *a ? a : b)"), A()])
+
+# ---------------------------------------------------------------------------------------------------------------------
+# binary searches (vf::gix, comparator etl::less<>).  Precondition [alg.binary.search]: the range is partitioned w.r.t. e < value
+# (lower_bound) resp. !(value < e) (upper_bound).  "Partitioned" is a universally quantified HYPOTHESIS; a ghost index supplies one
+# instance of it.  The contracts therefore state (1) without any precondition the local characterisation of the result r:
+# (r == first or r[-1] < value) and (r == last or !(r[0] < value)) -- and (2) for the ghost partition point vf_p and the instances
+# of the hypothesis at vf_k and vf_j: if vf_k == r and vf_j == r - 1 then r == vf_p.  Since the instances needed are exactly those two,
+# (2) for all ghost values is the standard's Returns clause.
+V = "*value"
+PRE_LB = lambda x: "((%s < vf_p ==> %s[%s] < %s) && ((vf_p <= %s && %s < vf_n) ==> !(%s[%s] < %s)))" % (x, G, x, V, x, x, G, x, V)
+PRE_UB = lambda x: "((%s < vf_q ==> !(%s < %s[%s])) && ((vf_q <= %s && %s < vf_n) ==> %s < %s[%s]))" % (x, V, G, x, x, x, V, G, x)
+HYP = "((long)vf_k == RET.i && (RET.i == 0 || (long)vf_j + 1 == RET.i))"
+LB_LOCAL = "(RET.i == 0 || %s[RET.i - 1] < %s) && (RET.i == (long)vf_n || !(%s[RET.i] < %s))" % (G, V, G, V)
+UB_LOCAL = "(RET.i == 0 || !(%s < %s[RET.i - 1])) && (RET.i == (long)vf_n || %s < %s[RET.i])" % (V, G, V, G)
+fn("etl::lower_bound<vf::gix<int, 0>, int, etl::less<>>", "etl_lower_bound", [R("FRESH(value, sizeof(int))"), R(grng()),
+   R("vf_p <= vf_n && %s && %s" % (PRE_LB("vf_k"), PRE_LB("vf_j"))),
+   E("0 <= RET.i && RET.i <= (long)vf_n"), E(LB_LOCAL), E("%s ==> RET.i == (long)vf_p" % HYP), A()],
+   [[A("it.i, step, count, first.i"),
+     INV("0 <= first.i && first.i <= (long)vf_n && 0 <= count && count <= (long)vf_n && first.i + count <= (long)vf_n && "
+         "(first.i == 0 || %s[first.i - 1] < %s) && (first.i + count == (long)vf_n || !(%s[first.i + count] < %s))" % (G, V, G, V)),
+     DEC("count")]])
+fn("etl::upper_bound<vf::gix<int, 0>, int, etl::less<>>", "etl_upper_bound", [R("FRESH(value, sizeof(int))"), R(grng()),
+   R("vf_q <= vf_n && %s && %s" % (PRE_UB("vf_k"), PRE_UB("vf_j"))),
+   E("0 <= RET.i && RET.i <= (long)vf_n"), E(UB_LOCAL), E("%s ==> RET.i == (long)vf_q" % HYP), A()],
+   [[A("count, first.i"),
+     INV("0 <= first.i && first.i <= (long)vf_n && 0 <= count && count <= (long)vf_n && first.i + count <= (long)vf_n && "
+         "(first.i == 0 || !(%s < %s[first.i - 1])) && (first.i + count == (long)vf_n || %s < %s[first.i + count])" % (V, G, V, G)),
+     DEC("count")]])
+# binary_search / equal_range: checked against the contract of lower_bound / upper_bound (replace=).  binary_search returns whether the
+# element at lower_bound is equivalent to value; that position is not visible in its post-state, so the contract states the consequences
+# that are: true needs a non-empty range, and a one-element range is decided by its element.
+fn("etl::binary_search<vf::gix<int, 0>, int, etl::less<>>", "etl_binary_search", [R("FRESH(value, sizeof(int))"), R(grng()),
+   R("vf_p <= vf_n && %s && %s" % (PRE_LB("vf_k"), PRE_LB("vf_j"))),
+   E("vf_n == 0 ==> !RET"),
+   E("vf_n == 1 ==> RET == (%s[0] == %s)" % (G, V)),
+   A()])
+fn("etl::equal_range<vf::gix<int, 0>, int, etl::less<>>", "etl_equal_range", [R("FRESH(value, sizeof(int))"), R(grng()),
+   R("vf_p <= vf_n && %s && %s" % (PRE_LB("vf_k"), PRE_LB("vf_j"))),
+   R("vf_q <= vf_n && %s && %s" % (PRE_UB("vf_k"), PRE_UB("vf_j"))),
+   E("0 <= RET.first.i && RET.first.i <= (long)vf_n && 0 <= RET.second.i && RET.second.i <= (long)vf_n"),
+   E(LB_LOCAL.replace("RET.i", "RET.first.i")), E(UB_LOCAL.replace("RET.i", "RET.second.i")),
+   E("%s ==> RET.first.i == (long)vf_p" % HYP.replace("RET.i", "RET.first.i")),
+   E("%s ==> RET.second.i == (long)vf_q" % HYP.replace("RET.i", "RET.second.i")),
+   A()])
 # ===== END CONTRACTS =====
 
 hdr = ["# generated by fam/algo/mkspec.py -- edit that file and re-run it",
-       "GHOST unsigned long vf_n, vf_m, vf_k, vf_j, vf_p, vf_q, vf_ov, vf_sel;"]
+       "GHOST unsigned long vf_n, vf_m, vf_k, vf_j, vf_p, vf_q, vf_ov, vf_sel;",
+       "GHOST int *vf_gb0;"]
 open(os.path.join(os.path.dirname(os.path.abspath(__file__)), "contracts.spec"), "w").write("\n".join(hdr + OUT) + "\n")
